@@ -1,6 +1,6 @@
 (* C01 — exported theorems only: each is closed by [exact] and followed by Print Assumptions. *)
 From Coq Require Import List ZArith Bool.
-From Verif Require Import Lib.Vec2 Lib.Interleave C01.Model C01.Spec C01.Proofs_Base C01.Proofs_Unique C01.Proofs_Reset C01.Proofs_Main C01.Proofs_Conc C01.Plugin C01.Proofs_Findings.
+From Verif Require Import Lib.Vec2 Lib.Interleave C01.Model C01.Spec C01.Proofs_Base C01.Proofs_Unique C01.Proofs_Reset C01.Proofs_Main C01.Proofs_Conc C01.Plugin C01.Proofs_Findings C01.Codec C01.Proofs_Ghost.
 Import ListNotations.
 Open Scope Z_scope.
 
@@ -54,6 +54,15 @@ Theorem c01_figures_determined_by_objects : forall s1 s2,
     st_r s1 (q_name q) = st_r s2 (q_name q) /\ st_u s1 (q_name q) = st_u s2 (q_name q).
 Proof. exact figures_determined. Qed.
 Print Assumptions c01_figures_determined_by_objects.
+
+(* the "counted request" of every cached pod (the ghost the invariant sums) is the request of the
+   object the history delivered last for that pod: this is how Codec.mk_pinfo reconstructs it when
+   the IMPLEMENTATION's observable is judged, so what is proved is what is compared *)
+Theorem c01_ghost_is_last_delivered : forall sm dm h,
+  wf_init sm dm = true -> wf_history (init sm dm) h = true ->
+  ghost_matches h (run (init sm dm) h) = true.
+Proof. exact ghost_matches_holds. Qed.
+Print Assumptions c01_ghost_is_last_delivered.
 
 (* ---------- concurrency ---------- *)
 
